@@ -148,7 +148,10 @@ where
 
         // println!("awpl in bits: {}", awpl as f64 / tot_occs as f64);
 
-        let codes = craft_wm_codes(&mut lengths, sigma.as_());
+        let sigma: usize = sigma
+            .to_usize()
+            .expect("symbols are used as table indexes and must fit in usize");
+        let codes = craft_wm_codes(&mut lengths, sigma);
 
         // println!("{:?}", codes);
 
@@ -432,6 +435,7 @@ where
     #[must_use]
     pub fn rank_prefetch(&self, symbol: T, i: usize) -> Option<usize> {
         if i > self.n
+            || symbol.to_usize().is_none()
             || symbol.as_() >= self.codes_encode.len()
             || self.codes_encode[symbol.as_() as usize].len == 0
         {
@@ -694,6 +698,7 @@ where
     #[inline(always)]
     fn rank(&self, symbol: Self::Item, i: usize) -> Option<usize> {
         if i > self.n
+            || symbol.to_usize().is_none()
             || symbol.as_() >= self.codes_encode.len()
             || self.codes_encode[symbol.as_()].len == 0
         {
@@ -783,7 +788,8 @@ where
     #[must_use]
     #[inline(always)]
     fn select(&self, symbol: Self::Item, i: usize) -> Option<usize> {
-        if symbol.as_() >= self.codes_encode.len()
+        if symbol.to_usize().is_none()
+            || symbol.as_() >= self.codes_encode.len()
             || self.codes_encode[symbol.as_() as usize].len == 0
         {
             return None;
